@@ -627,6 +627,9 @@ def _sc(c):
     return S.lift(c)
 
 
+_ONE = VConst(1.0)
+
+
 class Lower(object):
     """Lowers V terms to scalar terms at the generic index.
 
@@ -679,8 +682,44 @@ class Lower(object):
             args = [self(a) for a in v.args]
             return pw_apply(v.fn, args)
         if isinstance(v, VApp):
+            if v.op.linear and len(v.args) == 1 and isinstance(v.args[0], V):
+                return self.linear_app(v)
             return self.atom(v)
         raise EngineError('cannot lower %r' % (v,))
+
+    def linform(self, v):
+        """[(coef, atom)] with every linear operator application distributed over combinations:
+        L(sum c_k a_k) = sum c_k L(a_k)  (conj(c_k) for an antilinear L), L(0) = 0"""
+        if isinstance(v, VLin):
+            out = []
+            for c, t in v.terms:
+                for c2, a in self.linform(t):
+                    out.append((_sc(c) * _sc(c2), a))
+            return out
+        if isinstance(v, VConst):
+            c = v.c
+            if isinstance(c, (int, float)) and c == 0:
+                return []
+            if isinstance(c, (int, float)) and c == 1:
+                return [(1, _ONE)]
+            return [(c, _ONE)]
+        if isinstance(v, VApp) and v.op.linear and len(v.args) == 1 and isinstance(v.args[0], V):
+            out = []
+            anti = getattr(v.op, 'antilinear', False)
+            for c, a in self.linform(v.args[0]):
+                cc = _sc(c)
+                out.append((cc.conjugate() if anti else cc, VApp(v.op, (a,), v.field, v.slot)))
+            return out
+        return [(1, v)]
+
+    def linear_app(self, v):
+        acc = None
+        for c, a in self.linform(v):
+            x = _sc(c) * self.atom(a)
+            acc = x if acc is None else acc + x
+        if acc is None:
+            return C(0.0, 0.0) if v.field == 'complex' else S.lift(0.0)
+        return acc
 
     def atom(self, v):
         key = v.key()
